@@ -100,3 +100,30 @@ def run(body, init, step, max_states=64):
 def calls_in(node):
     """Call nodes of a simple statement / header expression, innermost first (evaluation order is irrelevant to the clients)"""
     return [n for n in ast.walk(node) if isinstance(n, ast.Call)]
+
+
+def _is_self_field(n, fld):
+    return isinstance(n, ast.Attribute) and isinstance(n.value, ast.Name) and n.value.id == "self" and (n.attr == fld or fld.endswith("__" + n.attr.lstrip("_")) or n.attr.endswith("__" + fld.lstrip("_")))
+
+
+def used_before_assigned(fnode_body, fld):
+    """first use (load, or in-place method call) of self.<fld> that some path reaches before this call has executed a plain `self.<fld> = <expr not
+    reading it>`; None if every use is preceded by such an assignment.  (Private-name mangling: __x and _Cls__x are the same field.)"""
+    hit = []
+
+    def uses(node):
+        for n in ast.walk(node):
+            if _is_self_field(n, fld) and isinstance(n.ctx, ast.Load):
+                return n
+        return None
+
+    def step(node, st):
+        if st == "unset":
+            if isinstance(node, ast.Assign) and any(_is_self_field(t, fld) for t in node.targets) and uses(node.value) is None:
+                return "set"
+            u = uses(node)
+            if u is not None:
+                hit.append(u)
+        return st
+    run(fnode_body, "unset", step)
+    return hit[0] if hit else None
